@@ -64,6 +64,7 @@ type Exec struct {
 	tf      *TermFactory
 	solver  *Solver
 	isolver *Solver
+	xsolvers []*Solver
 	globals map[*ssa.Global]*Obj
 	initDone map[*ssa.Package]bool
 
@@ -1348,6 +1349,9 @@ func (ex *Exec) callBuiltin(fr *Frame, b *ssa.Builtin, args []Value, site ssa.In
 		switch t := args[1].(type) {
 		case SliceV:
 			for i := 0; i < t.len; i++ {
+				if ex.curThread != 0 {
+					ex.raceAccess('R', PtrV{obj: t.arr, path: []int{t.off + i}})
+				}
 				add = append(add, t.arr.v.(*ArrayV).elems[t.off+i])
 			}
 		case *StrV:
@@ -1384,6 +1388,9 @@ func (ex *Exec) callBuiltin(fr *Frame, b *ssa.Builtin, args []Value, site ssa.In
 			n = d.len
 		}
 		for i := 0; i < n; i++ {
+			if ex.curThread != 0 {
+				ex.raceAccess('W', PtrV{obj: d.arr, path: []int{d.off + i}})
+			}
 			d.arr.v.(*ArrayV).elems[d.off+i] = copyAgg(src[i])
 		}
 		return tf.Const(64, uint64(n))
@@ -1463,6 +1470,12 @@ func (ex *Exec) appendVals(s SliceV, add []Value, et types.Type) SliceV {
 	if s.arr != nil && need <= s.cap {
 		arr := s.arr.v.(*ArrayV)
 		for i, v := range add {
+			if ex.curThread != 0 {
+				ex.raceAccess('W', PtrV{obj: s.arr, path: []int{s.off + s.len + i}})
+				if ex.traced[s.arr] {
+					ex.markTraced(v)
+				}
+			}
 			arr.elems[s.off+s.len+i] = copyAgg(v)
 		}
 		return SliceV{arr: s.arr, off: s.off, len: need, cap: s.cap}
@@ -1479,6 +1492,9 @@ func (ex *Exec) appendVals(s SliceV, add []Value, et types.Type) SliceV {
 	ns := ex.makeSlice(et, need, nc)
 	arr := ns.arr.v.(*ArrayV)
 	for i := 0; i < s.len; i++ {
+		if ex.curThread != 0 {
+			ex.raceAccess('R', PtrV{obj: s.arr, path: []int{s.off + i}})
+		}
 		arr.elems[i] = copyAgg(s.arr.v.(*ArrayV).elems[s.off+i])
 	}
 	for i, v := range add {
